@@ -280,17 +280,19 @@ theorem C13_dwa_sent (env : SMEnv) (short : Option Nat) (s : ConnSt) (m : Msg) (
   have e2 : s.peer.isNone = false := by cases hs : s.peer <;> simp_all
   rcases ht with ht | ht <;> simp [ht, hc, h1, h2, e1, e2]
 
-/-- C13 / C16: the DWA has Result-Code 2001, the local identity, and the request's command code,
+/-- C13 / C16: the DWA has Result-Code 2001, the local identity (and the configured Origin-State-Id), and the request's command code,
     application id, hop-by-hop and end-to-end identifiers with the request bit cleared -/
 theorem C13_dwa_fields (cfg : Settings) (req : Header) (hf : req.flags < 256) :
     (dwa cfg req).hdr.hbh = req.hbh ∧ (dwa cfg req).hdr.e2e = req.e2e ∧ (dwa cfg req).hdr.cmd = req.cmd ∧
     (dwa cfg req).hdr.app = req.app ∧ isRequest (dwa cfg req).hdr.flags = false ∧
     (dwa cfg req).hdr.flags % 128 = req.flags % 128 ∧
     (dwa cfg req).avps = [newAVP C.resultCode 64 0 (.fix T.u32 2001),
-      newAVP C.originHost 64 0 (.str T.ident cfg.originHost), newAVP C.originRealm 64 0 (.str T.ident cfg.originRealm)] := by
+      newAVP C.originHost 64 0 (.str T.ident cfg.originHost), newAVP C.originRealm 64 0 (.str T.ident cfg.originRealm)]
+      ++ (if cfg.originStateId ≠ 0 then [newAVP C.originStateId 64 0 (.fix T.u32 cfg.originStateId)] else []) := by
   unfold dwa mkMsg
-  have h := mkMsg_avps req [newAVP C.resultCode 64 0 (.fix T.u32 2001),
-      newAVP C.originHost 64 0 (.str T.ident cfg.originHost), newAVP C.originRealm 64 0 (.str T.ident cfg.originRealm)] [] (answerHdr req 0)
+  have h := mkMsg_avps req ([newAVP C.resultCode 64 0 (.fix T.u32 2001),
+      newAVP C.originHost 64 0 (.str T.ident cfg.originHost), newAVP C.originRealm 64 0 (.str T.ident cfg.originRealm)]
+      ++ (if cfg.originStateId ≠ 0 then [newAVP C.originStateId 64 0 (.fix T.u32 cfg.originStateId)] else [])) [] (answerHdr req 0)
   simp only [List.nil_append] at h
   refine ⟨h.2.1, h.2.2.1, h.2.2.2.1, h.2.2.2.2.1, ?_, ?_, h.1⟩
   · rw [h.2.2.2.2.2]; unfold answerHdr isRequest; simp only []
